@@ -163,7 +163,7 @@ def gen(ctx, rng, budget, exhaustive=False):
 
 
 def run(ctx):
-    proof = prove('C19', [], ['C19_props'], static_deps=['Proofs/RomfsProofs.v', 'Proofs/LzssProofs.v', 'Proofs/IvfcBoundProofs.v'])
+    proof = prove('C19', [], ['C19_props'], static_deps=['Proofs/RomfsProofs.v', 'Proofs/LzssProofs.v', 'Proofs/IvfcBoundProofs.v', 'Proofs/NcchAvailProofs.v'])
     mr = ModelRunner()
     try:
         lzss_corr(ctx, mr, ctx.rng, ctx.n(150, 3000))
